@@ -18,6 +18,8 @@ use std::time::{Duration, Instant};
 pub enum Msg {
     Req { method: &'static str, params: Value },
     Edit { changes: Value },
+    /// an edit of the second open document (scenarios with `v2`)
+    Edit2 { changes: Value },
 }
 
 #[derive(Clone, Debug)]
@@ -25,6 +27,12 @@ pub struct Scenario {
     pub name: &'static str,
     pub v1: &'static str,
     pub msgs: Vec<Msg>,
+    /// text of a second document that is open as well
+    pub v2: Option<&'static str>,
+}
+
+fn doc2_uri() -> String {
+    format!("file://{}/other.gleam", crate::core::verif_root().join(".scratch/c16/ws").display())
 }
 
 fn doc_uri() -> String {
@@ -43,12 +51,20 @@ pub fn scenarios() -> Vec<Scenario> {
     let v1 = "pub fn aaaa() -> Int {\n  bbbb(1)\n}\n\nfn bbbb(x) {\n  x + 1\n}\n";
     let v_err = "pub fn aaaa( -> Int {\n  1\n}\n";
     vec![
-        Scenario { name: "hover-then-edit", v1, msgs: vec![Msg::Req { method: "textDocument/hover", params: tdp(0, 8) }, edit(0, 0, 0, 0, "// c\n\n")] },
-        Scenario { name: "edit-then-hover", v1, msgs: vec![edit(0, 0, 0, 0, "// c\n\n"), Msg::Req { method: "textDocument/hover", params: tdp(2, 8) }] },
-        Scenario { name: "two-edits-diagnostics", v1: v_err, msgs: vec![edit(1, 2, 1, 3, "2"), edit(1, 2, 1, 3, "3")] },
-        Scenario { name: "refs-edit-completion", v1, msgs: vec![Msg::Req { method: "textDocument/references", params: json!({"textDocument": {"uri": doc_uri()}, "position": {"line": 4, "character": 4}, "context": {"includeDeclaration": true}}) }, edit(5, 2, 5, 3, "x * 2 + x"), Msg::Req { method: "textDocument/completion", params: tdp(1, 3) }] },
-        Scenario { name: "rename-edit-tokens", v1, msgs: vec![Msg::Req { method: "textDocument/rename", params: json!({"textDocument": {"uri": doc_uri()}, "position": {"line": 4, "character": 4}, "newName": "cccc"}) }, edit(3, 0, 3, 0, "\n"), Msg::Req { method: "textDocument/semanticTokens/full", params: json!({"textDocument": {"uri": doc_uri()}}) }] },
-        Scenario { name: "definition-edit-edit-tree", v1, msgs: vec![Msg::Req { method: "textDocument/definition", params: tdp(1, 3) }, edit(0, 0, 0, 0, "\n"), edit(0, 0, 1, 0, ""), Msg::Req { method: "glas/syntaxTree", params: json!({"textDocument": {"uri": doc_uri()}}) }] },
+        Scenario { name: "hover-then-edit", v1, msgs: vec![Msg::Req { method: "textDocument/hover", params: tdp(0, 8) }, edit(0, 0, 0, 0, "// c\n\n")], v2: None },
+        Scenario { name: "edit-then-hover", v1, msgs: vec![edit(0, 0, 0, 0, "// c\n\n"), Msg::Req { method: "textDocument/hover", params: tdp(2, 8) }], v2: None },
+        Scenario { name: "two-edits-diagnostics", v1: v_err, msgs: vec![edit(1, 2, 1, 3, "2"), edit(1, 2, 1, 3, "3")], v2: None },
+        // an edit that breaks the text, then edits that leave it as it is: the diagnostics of the
+        // final text must still arrive (an edit cancels the diagnostics run of the one before)
+        Scenario { name: "edit-then-noop-edit", v1, msgs: vec![edit(0, 12, 0, 13, ""), edit(0, 0, 0, 0, "")], v2: None },
+        Scenario { name: "edit-then-empty-change-list", v1, msgs: vec![edit(0, 12, 0, 13, ""), Msg::Edit { changes: json!([]) }], v2: None },
+        // diagnostics whose positions move with every edit: an outdated run must not be published last
+        Scenario { name: "two-edits-moving-diagnostics", v1: v_err, msgs: vec![edit(0, 0, 0, 0, "\n"), edit(0, 0, 0, 0, "\n")], v2: None },
+        // two open documents: an edit of one cancels the running diagnostics of the other; both must end with the diagnostics of their final texts
+        Scenario { name: "two-documents-edit-each", v1, msgs: vec![edit(0, 12, 0, 13, ""), Msg::Edit2 { changes: json!([{"range": {"start": {"line": 0, "character": 0}, "end": {"line": 0, "character": 0}}, "text": "// c\n"}]) }], v2: Some("pub fn other( {\n  1\n}\n") },
+        Scenario { name: "refs-edit-completion", v1, msgs: vec![Msg::Req { method: "textDocument/references", params: json!({"textDocument": {"uri": doc_uri()}, "position": {"line": 4, "character": 4}, "context": {"includeDeclaration": true}}) }, edit(5, 2, 5, 3, "x * 2 + x"), Msg::Req { method: "textDocument/completion", params: tdp(1, 3) }], v2: None },
+        Scenario { name: "rename-edit-tokens", v1, msgs: vec![Msg::Req { method: "textDocument/rename", params: json!({"textDocument": {"uri": doc_uri()}, "position": {"line": 4, "character": 4}, "newName": "cccc"}) }, edit(3, 0, 3, 0, "\n"), Msg::Req { method: "textDocument/semanticTokens/full", params: json!({"textDocument": {"uri": doc_uri()}}) }], v2: None },
+        Scenario { name: "definition-edit-edit-tree", v1, msgs: vec![Msg::Req { method: "textDocument/definition", params: tdp(1, 3) }, edit(0, 0, 0, 0, "\n"), edit(0, 0, 1, 0, ""), Msg::Req { method: "glas/syntaxTree", params: json!({"textDocument": {"uri": doc_uri()}}) }], v2: None },
     ]
 }
 
@@ -64,6 +80,7 @@ pub struct RunOut {
     pub points: Vec<ChoicePoint>,
     pub responses: BTreeMap<i64, Vec<Value>>,
     pub diags: Vec<Value>,
+    pub diags2: Vec<Value>,
     pub final_text: Option<String>,
     pub problems: Vec<(String, String)>,
     pub trace: Vec<(String, String)>,
@@ -78,6 +95,8 @@ fn record(v: Value, out: &mut RunOut, p: &mut Proc) {
     } else if v["method"].as_str() == Some("textDocument/publishDiagnostics") {
         if v["params"]["uri"].as_str() == Some(doc_uri().as_str()) {
             out.diags.push(v["params"]["diagnostics"].clone());
+        } else if v["params"]["uri"].as_str() == Some(doc2_uri().as_str()) {
+            out.diags2.push(v["params"]["diagnostics"].clone());
         }
     } else if let (Some(_), Some(_)) = (v.get("id"), v["method"].as_str()) {
         let id = v["id"].clone();
@@ -172,6 +191,10 @@ fn send_msg(p: &mut Proc, sc: &Scenario, i: usize) {
             let version = 2 + sc.msgs[..i].iter().filter(|m| matches!(m, Msg::Edit { .. })).count();
             p.send(&json!({"jsonrpc": "2.0", "method": "textDocument/didChange", "params": {"textDocument": {"uri": doc_uri(), "version": version}, "contentChanges": changes}}));
         }
+        Msg::Edit2 { changes } => {
+            let version = 2 + sc.msgs[..i].iter().filter(|m| matches!(m, Msg::Edit2 { .. })).count();
+            p.send(&json!({"jsonrpc": "2.0", "method": "textDocument/didChange", "params": {"textDocument": {"uri": doc2_uri(), "version": version}, "contentChanges": changes}}));
+        }
     }
 }
 
@@ -183,6 +206,14 @@ fn prologue(p: &mut Proc, sc: &Scenario) {
     p.send(&json!({"jsonrpc": "2.0", "id": 1, "method": "initialize", "params": {"processId": null, "rootUri": null, "capabilities": {}}}));
     p.send(&json!({"jsonrpc": "2.0", "method": "initialized", "params": {}}));
     p.send(&json!({"jsonrpc": "2.0", "method": "textDocument/didOpen", "params": {"textDocument": {"uri": doc_uri(), "languageId": "gleam", "version": 1, "text": sc.v1}}}));
+}
+
+/// Opens the second document (after the first one has its diagnostics: the opening itself is not
+/// part of the race under test).
+fn prologue2(p: &mut Proc, sc: &Scenario) {
+    if let Some(v2) = sc.v2 {
+        p.send(&json!({"jsonrpc": "2.0", "method": "textDocument/didOpen", "params": {"textDocument": {"uri": doc2_uri(), "languageId": "gleam", "version": 1, "text": v2}}}));
+    }
 }
 
 pub fn run_schedule(sc: &Scenario, prefix: &[usize]) -> RunOut {
@@ -211,6 +242,14 @@ pub fn run_schedule(sc: &Scenario, prefix: &[usize]) -> RunOut {
         out.problems.push(("machinery".into(), "prologue did not complete".into()));
         return out;
     }
+    if sc.v2.is_some() {
+        quiesce(&mut p, &mut ctl, &mut out, Duration::from_millis(20));
+        prologue2(&mut p, sc);
+        if !pump(&mut p, Some(&mut ctl), &mut out, Instant::now() + Duration::from_secs(20), |o| !o.diags2.is_empty()) {
+            out.problems.push(("machinery".into(), "prologue (second document) did not complete".into()));
+            return out;
+        }
+    }
     quiesce(&mut p, &mut ctl, &mut out, Duration::from_millis(20));
     if ctl.trace.is_empty() {
         out.problems.push(("machinery".into(), "no yield point reported during the prologue: hooks not compiled in?".into()));
@@ -226,8 +265,21 @@ pub fn run_schedule(sc: &Scenario, prefix: &[usize]) -> RunOut {
     let mut last: Option<String> = None;
     let mut idle_rounds = 0;
     let grace = Duration::from_millis(2);
+    // set when the client has just delivered an edit to a main loop that was free to take it
+    let mut edit_delivered_to_free_loop = false;
     loop {
         quiesce(&mut p, &mut ctl, &mut out, grace);
+        if edit_delivered_to_free_loop {
+            edit_delivered_to_free_loop = false;
+            // The main loop takes the store lock and stops at its first yield point unless some
+            // task holds that lock across one of ITS yield points: then the edit waits for a
+            // request instead of cancelling it.
+            if !ctl.parked.contains_key("M") && !ctl.parked.is_empty() {
+                let holders: Vec<String> = ctl.parked.iter().map(|(t, (_, pt))| format!("{t}@{pt}")).collect();
+                out.problems.push(("change-blocked-by-request".into(), format!("a didChange delivered to an idle main loop did not get past the document store while {holders:?} were stopped at their yield points: a request holds the store lock across its analysis")));
+                break;
+            }
+        }
         let mut enabled: Vec<String> = ctl.parked.keys().cloned().collect();
         if next_msg < sc.msgs.len() {
             enabled.push("C".into());
@@ -253,6 +305,10 @@ pub fn run_schedule(sc: &Scenario, prefix: &[usize]) -> RunOut {
         let t = enabled[choice].clone();
         out.points.push(ChoicePoint { enabled: enabled.clone(), chosen: choice, last_enabled });
         if t == "C" {
+            // is the main loop free (not stopped anywhere, and past the end of its last handler)?
+            let m_last = ctl.trace.iter().rev().find(|(th, _)| th == "M").map(|(_, pt)| pt.clone());
+            let m_free = !ctl.parked.contains_key("M") && matches!(m_last.as_deref(), None | Some("apply:after"));
+            edit_delivered_to_free_loop = m_free && matches!(sc.msgs[next_msg], Msg::Edit { .. } | Msg::Edit2 { .. });
             send_msg(&mut p, sc, next_msg);
             next_msg += 1;
             last = None;
@@ -291,7 +347,38 @@ pub struct Sequential {
     /// request index -> result
     pub results: BTreeMap<usize, Value>,
     pub final_diags: Value,
+    pub final_diags2: Value,
     pub final_text: String,
+}
+
+/// Physical settling without a controller (hooks inactive): reads the server's output until all
+/// its threads sleep and nothing arrives, observed several times in a row.
+fn settle(p: &mut Proc, out: &mut RunOut) {
+    let pid = p.child.id();
+    let start = Instant::now();
+    let mut last = Instant::now();
+    let mut quiet_samples = 0;
+    loop {
+        let quiet = server_quiet(pid);
+        let mut any = false;
+        match p.recv(Duration::from_micros(500)) {
+            Ok(Some(v)) => {
+                record(v, out, p);
+                any = true;
+            }
+            Ok(None) => return,
+            Err(()) => {}
+        }
+        if any || !quiet {
+            last = Instant::now();
+            quiet_samples = 0;
+        } else {
+            quiet_samples += 1;
+        }
+        if (quiet_samples >= 5 && last.elapsed() >= Duration::from_millis(30)) || start.elapsed() > Duration::from_secs(10) {
+            return;
+        }
+    }
 }
 
 pub fn sequential(sc: &Scenario) -> Result<Sequential, String> {
@@ -302,16 +389,29 @@ pub fn sequential(sc: &Scenario) -> Result<Sequential, String> {
     if !pump(&mut p, None, &mut out, Instant::now() + Duration::from_secs(20), |o| o.responses.contains_key(&1) && !o.diags.is_empty()) {
         return Err("sequential prologue failed".into());
     }
+    if sc.v2.is_some() {
+        settle(&mut p, &mut out);
+        prologue2(&mut p, sc);
+        if !pump(&mut p, None, &mut out, Instant::now() + Duration::from_secs(20), |o| !o.diags2.is_empty()) {
+            return Err("sequential prologue (second document) failed".into());
+        }
+        settle(&mut p, &mut out);
+    }
     let mut version = 1;
     for (i, m) in sc.msgs.iter().enumerate() {
         match m {
             Msg::Edit { changes } => {
                 version += 1;
-                let before = out.diags.len();
                 p.send(&json!({"jsonrpc": "2.0", "method": "textDocument/didChange", "params": {"textDocument": {"uri": doc_uri(), "version": version}, "contentChanges": changes}}));
-                if !pump(&mut p, None, &mut out, Instant::now() + Duration::from_secs(10), |o| o.diags.len() > before) {
-                    return Err("no diagnostics after an edit in the sequential session".into());
-                }
+                // wait until the server has gone quiet (physically: every thread asleep, nothing to
+                // read); whether this edit produced a fresh diagnostics message is not the session's
+                // business - what counts is the last one published when everything is over
+                settle(&mut p, &mut out);
+            }
+            Msg::Edit2 { changes } => {
+                let version2 = 2 + sc.msgs[..i].iter().filter(|m| matches!(m, Msg::Edit2 { .. })).count();
+                p.send(&json!({"jsonrpc": "2.0", "method": "textDocument/didChange", "params": {"textDocument": {"uri": doc2_uri(), "version": version2}, "contentChanges": changes}}));
+                settle(&mut p, &mut out);
             }
             Msg::Req { method, params } => {
                 let id = 100 + i as i64;
@@ -330,7 +430,7 @@ pub fn sequential(sc: &Scenario) -> Result<Sequential, String> {
         return Err("no canary answer in the sequential session".into());
     }
     let final_text = out.responses[&900][0]["result"].as_str().map(tree_text).unwrap_or_default();
-    Ok(Sequential { results, final_diags: out.diags.last().cloned().unwrap_or(Value::Null), final_text })
+    Ok(Sequential { results, final_diags: out.diags.last().cloned().unwrap_or(Value::Null), final_diags2: out.diags2.last().cloned().unwrap_or(Value::Null), final_text })
 }
 
 fn norm(v: &Value) -> String {
@@ -348,6 +448,51 @@ fn norm(v: &Value) -> String {
         }
         other => other.to_string(),
     }
+}
+
+
+/// Server-level probes for C12: one request of each kind is stopped in the middle of its
+/// analysis (its first cancellation checkpoint), then the client sends an edit. The edit must get
+/// through the document store (it cancels the request; it does not wait for it), every request
+/// is answered and the server stays alive. Returns (probe name, problems).
+pub fn edit_during_request_probes() -> Vec<(String, Vec<(String, String)>)> {
+    let v1 = "pub fn aaaa() -> Int {\n  bbbb(1)\n}\n\nfn bbbb(x) {\n  x + 1\n}\n";
+    let td = || json!({"uri": doc_uri()});
+    let kinds: Vec<(&'static str, Value)> = vec![
+        ("textDocument/hover", tdp(0, 8)),
+        ("textDocument/definition", tdp(1, 3)),
+        ("textDocument/references", json!({"textDocument": td(), "position": {"line": 4, "character": 4}, "context": {"includeDeclaration": true}})),
+        ("textDocument/documentHighlight", tdp(4, 4)),
+        ("textDocument/completion", tdp(1, 3)),
+        ("textDocument/signatureHelp", tdp(1, 7)),
+        ("textDocument/prepareRename", tdp(4, 4)),
+        ("textDocument/rename", json!({"textDocument": td(), "position": {"line": 4, "character": 4}, "newName": "cccc"})),
+        ("textDocument/semanticTokens/full", json!({"textDocument": td()})),
+        ("textDocument/semanticTokens/range", json!({"textDocument": td(), "range": {"start": {"line": 0, "character": 0}, "end": {"line": 3, "character": 0}}})),
+        ("glas/syntaxTree", json!({"textDocument": td()})),
+    ];
+    let _ = std::fs::create_dir_all(crate::core::verif_root().join(".scratch/c16/ws"));
+    kinds
+        .into_par_iter()
+        .map(|(method, params)| {
+            let sc = Scenario { name: "edit-during-request", v1, msgs: vec![Msg::Req { method, params }, edit(0, 0, 0, 0, "// c\n\n")], v2: None };
+            // C (request), then the task up to its in-query point (task:start -> store read -> in query), then C (edit)
+            let out = run_schedule(&sc, &[0, 1, 0, 1]);
+            let reached = out.trace.iter().any(|(t, p)| t.starts_with('T') && p == "task:in_query");
+            let mut problems: Vec<(String, String)> = out.problems.iter().filter(|(c, _)| c != "machinery").cloned().collect();
+            for (c, d) in out.problems.iter().filter(|(c, _)| c == "machinery") {
+                // a request that never enters a query (syntax tree) makes the fixed prefix diverge: not a finding
+                if !d.contains("diverged") {
+                    problems.push((c.clone(), d.clone()));
+                }
+            }
+            let id = 100;
+            if !problems.iter().any(|p| p.0 == "server-died") && out.responses.get(&id).map_or(true, |r| r.len() != 1) {
+                problems.push(("request-not-answered-once".into(), format!("{method}: {} responses", out.responses.get(&id).map_or(0, |r| r.len()))));
+            }
+            (format!("{method}{}", if reached { "" } else { " (no query checkpoint reached)" }), problems)
+        })
+        .collect()
 }
 
 pub fn judge(sc: &Scenario, seq: &Sequential, out: &RunOut) -> Vec<(String, String, String)> {
@@ -389,6 +534,13 @@ pub fn judge(sc: &Scenario, seq: &Sequential, out: &RunOut) -> Vec<(String, Stri
     if norm(&last) != norm(&seq.final_diags) {
         let n = |v: &Value| v.as_array().map_or(0, |a| a.len());
         v.push(("stale-diagnostics".into(), "last-diagnostics".into(), format!("the last diagnostics published for the document have {} entries, those of the final text have {} (published sequence lengths: {:?})", n(&last), n(&seq.final_diags), out.diags.iter().map(n).collect::<Vec<_>>())));
+    }
+    if sc.v2.is_some() {
+        let last2 = out.diags2.last().cloned().unwrap_or(Value::Null);
+        if norm(&last2) != norm(&seq.final_diags2) {
+            let n = |v: &Value| v.as_array().map_or(0, |a| a.len());
+            v.push(("stale-diagnostics".into(), "last-diagnostics-of-the-other-document".into(), format!("the last diagnostics published for the second open document have {} entries, those of its final text have {} (published sequence lengths: {:?})", n(&last2), n(&seq.final_diags2), out.diags2.iter().map(n).collect::<Vec<_>>())));
+        }
     }
     v
 }
@@ -481,7 +633,7 @@ pub fn run(tier: Tier) -> i32 {
                 rep.violation(v);
             }
         }
-        l.bound = format!("all interleavings of the client's sends (C), the main loop's and the blocking tasks' yield points with <= {bound} preemptions (a send is a voluntary yield of the client); {} messages ({}); longest run {max_points} scheduling decisions; {rounds} deviation rounds", sc.msgs.len(), sc.msgs.iter().map(|m| match m { Msg::Req { method, .. } => method.rsplit('/').next().unwrap_or(method).to_string(), Msg::Edit { .. } => "didChange".into() }).collect::<Vec<_>>().join(", "));
+        l.bound = format!("all interleavings of the client's sends (C), the main loop's and the blocking tasks' yield points with <= {bound} preemptions (a send is a voluntary yield of the client); {} messages ({}); longest run {max_points} scheduling decisions; {rounds} deviation rounds", sc.msgs.len(), sc.msgs.iter().map(|m| match m { Msg::Req { method, .. } => method.rsplit('/').next().unwrap_or(method).to_string(), Msg::Edit { .. } => "didChange".into(), Msg::Edit2 { .. } => "didChange(other document)".into() }).collect::<Vec<_>>().join(", "));
         rep.layer(l);
     }
     rep.distinct_nontrivial = distinct_traces.len() as u64;
